@@ -1533,7 +1533,7 @@ def _v2(clauses, label, **kw):
 
 V2_CLAUSES = {
     'C02': ['accept'], 'C12': ['blame', 'flags'], 'C17': ['counts', 'completion', 'flags'], 'C14': ['views'], 'C04': ['trailer'], 'C05': ['prefix', 'flags'],
-    'C11': ['tlv_step', 'views'], 'C13': ['rebuild'], 'C03': ['views', 'tlv_step'], 'C16': ['views'],
+    'C11': ['tlv_step', 'views'], 'C13': ['rebuild'], 'C03': ['views', 'tlv_step'], 'C16': ['views', 'tlv_step'],
 }
 def c20_write_to(prog, lmax):
     import props_b
